@@ -50,7 +50,8 @@ struct Driver {
     std::map<long, int> stub;
     std::string dir;
     bool stopped = false;
-    std::map<long, std::vector<std::uint8_t>> last_cipher;   // ciphertext matching the last manifest made for chunk c
+    std::map<long, std::vector<std::uint8_t>> last_cipher;
+    std::string own_manifest;   // manifest of chunk 9 stored by the node itself   // ciphertext matching the last manifest made for chunk c
 
     static std::uint16_t free_port() {
         int s = ::socket(AF_INET, SOCK_STREAM, 0);
@@ -191,7 +192,7 @@ struct Driver {
             cfg.shard_threshold = 2; cfg.shard_total = 3;
             a = std::make_unique<Node>(pid(0), cfg);
             Config bc = cfg; bc.identity_seed = 0x4321u; b = std::make_unique<Node>(pid(40), bc);
-            a->store_chunk(cid(9), payload_bytes(9), std::chrono::seconds(3600));
+            own_manifest = protocol::encode_manifest(a->store_chunk(cid(9), std::vector<std::uint8_t>(100000, 0x5a), std::chrono::seconds(3600)));
             stopped = false;
             server = std::make_unique<daemon::ControlServer>(*a, node_mutex, [this] { stopped = true; });
             for (int i = 0; i < 20; ++i) { port = free_port(); try { server->start("127.0.0.1", port); break; } catch (const std::exception&) {} }
@@ -249,6 +250,36 @@ struct Driver {
             auto r = control(req);
             out = r.rfind("STATUS:OK", 0) == 0 ? "handled" : r.rfind("STATUS:ERROR", 0) == 0 ? "error" : r.empty() ? "noresp" : "other";
             e.i("c", ch).s("m", cls);
+        } else if (c.op == "ctlabort") {
+            // a control client that asks for a streamed FETCH (large response) and resets the connection at once
+            int sck = ::socket(AF_INET, SOCK_STREAM, 0);
+            sockaddr_in ad{}; ad.sin_family = AF_INET; ad.sin_addr.s_addr = htonl(INADDR_LOOPBACK); ad.sin_port = htons(port);
+            if (::connect(sck, reinterpret_cast<sockaddr*>(&ad), sizeof ad) == 0) {
+                std::string req = c.i("k", 0) == 0 ? "COMMAND:FETCH\nMANIFEST:" + own_manifest + "\nSTREAM:client\n\n" : "COMMAND:LIST\n\n";
+                ::send(sck, req.data(), req.size(), MSG_NOSIGNAL);
+                linger lg{1, 0}; setsockopt(sck, SOL_SOCKET, SO_LINGER, &lg, sizeof lg);
+            }
+            ::close(sck);
+            usleep(30000);
+            out = "aborted";
+        } else if (c.op == "peerabort") {
+            // a peer that requests a chunk and closes its end before the node answers
+            long q = 30 + c.i("k", 0);
+            ensure_stub(q);
+            protocol::Message rq{}; rq.type = protocol::MessageType::Request; rq.payload = protocol::RequestPayload{cid(9), pid(q)};
+            auto bytes = sign(q, rq);
+            auto key = a->session_key(pid(q)); crypto::Key k{}; k.bytes = *key;
+            crypto::Nonce nonce{}; for (auto& x : nonce.bytes) x = static_cast<std::uint8_t>(vrng::next64());
+            std::vector<std::uint8_t> ct(bytes.size()); crypto::ChaCha20::apply(k, nonce, bytes, ct, 0u);
+            std::vector<std::uint8_t> frame(nonce.bytes.begin(), nonce.bytes.end());
+            std::uint32_t len = static_cast<std::uint32_t>(ct.size());
+            frame.push_back(len >> 24); frame.push_back(len >> 16); frame.push_back(len >> 8); frame.push_back(len);
+            frame.insert(frame.end(), ct.begin(), ct.end());
+            fcntl(stub[q], F_SETFL, fcntl(stub[q], F_GETFL) & ~O_NONBLOCK);
+            ::send(stub[q], frame.data(), frame.size(), MSG_NOSIGNAL);
+            ::close(stub[q]); stub.erase(q);
+            usleep(50000);
+            out = "aborted";
         } else if (c.op == "ctlemptyout") {
             auto r = control("COMMAND:FETCH\nMANIFEST:" + manifest_uri(ch, "ok") + "\nOUT:\n\n");
             out = r.rfind("STATUS:OK", 0) == 0 ? "handled" : r.rfind("STATUS:ERROR", 0) == 0 ? "error" : r.empty() ? "noresp" : "other";
